@@ -37,6 +37,14 @@ TARGETS = {1: 'asn1', 2: 'cert', 3: 'exts', 4: 'crl-req', 5: 'cms', 6: 'keys', 7
 MAXLEN = {1: 400, 2: 4096, 3: 2048, 4: 4096, 5: 8192, 6: 2048, 7: 1024, 8: 6000, 9: 18437, 10: 600}
 
 
+_SM2_P = 0xFFFFFFFEFFFFFFFFFFFFFFFFFFFFFFFFFFFFFFFF00000000FFFFFFFFFFFFFFFF
+_SM2_N = 0xFFFFFFFEFFFFFFFFFFFFFFFFFFFFFFFF7203DF6B21C6052B53BBF40939D54123
+_SM9_P = 0xB640000002A3A6F1D603AB4FF58EC74521F2934B1A7AEEDBE56F9B27E351457D
+_SM9_N = 0xB640000002A3A6F1D603AB4FF58EC74449F2934B18EA8BEEE56EE19CD69ECF25
+BOUNDARY_CONSTANTS = [('zero', 0), ('one', 1), ('all-ones', (1 << 256) - 1)] + [
+    ('%s%+d' % (nm, dlt), v + dlt) for nm, v in (('sm2-p', _SM2_P), ('sm2-n', _SM2_N), ('sm9-p', _SM9_P), ('sm9-n', _SM9_N)) for dlt in (-1, 0, 1)]
+
+
 def plan(tier, seed):
     units = [{'kind': 'seeds', 'weight': 4}]
     n = 2 if tier == 'quick' else 24
@@ -264,12 +272,13 @@ def u_seeds(ctx, u):
                 extra = [(x.name, x.data) for x in D.mutants(data, limit_per_class=60)]
             except Exception:
                 extra = []
-            for note, m in D.resize_mutants(data) + extra:
+            vals = D.value_mutants(data, BOUNDARY_CONSTANTS) if t in (6, 7, 10) else []
+            for note, m in D.resize_mutants(data) + extra + vals:
                 if len(m) > 60000:
                     big += 1
                     if big > 60:
                         continue
-                if scnt.get(t, 0) >= 4000:
+                if scnt.get(t, 0) >= 6000:
                     break
                 scnt[t] = scnt.get(t, 0) + 1
                 with open(os.path.join(odir, 'm%05d' % scnt[t]), 'wb') as f:
